@@ -178,6 +178,12 @@ func emitC17(out *Out, r *Rng, attr string, tags []string) {
 		}
 		out.Emit(Case{Op: "none", In: J{"attr": attr, "rootPosition": pos}, Impl: J{"built": cerr2 == nil}, Prop: propOf(why), Tags: append(append([]string{}, tags...), "root-position-option"), NT: true})
 	}
+	// a schema that is no JSON-LD context document: an error, whatever it is
+	for _, bad := range []string{``, `null`, `[]`, `5`, `"x"`, `{}`, `{"@context":5}`, `{"@context":"https://unloadable.example/ctx"}`, `{"@context":{"@version":2}}`, `{"@context":`} {
+		if idx, err := (jsonproc.Parser{}).GetFieldSlotIndex(pool[0], c.TypeName, []byte(bad)); err == nil {
+			out.Emit(Case{Op: "none", In: J{"schema": bad}, Impl: okJ(idx), Prop: &PropRes{OK: false, Why: fmt.Sprintf("slot index %d reported although the schema %q is no context document", idx, bad)}, Tags: append(append([]string{}, tags...), "bad-schema"), NT: true})
+		}
+	}
 	// unknown type: an error
 	if idx, err := (jsonproc.Parser{}).GetFieldSlotIndex("fld0", "NoSuchType", schema); err == nil {
 		out.Emit(Case{Op: "none", In: J{"attr": attr}, Impl: okJ(idx), Prop: &PropRes{OK: false, Why: "slot index reported for an unknown type"}, Tags: tags, NT: true})
